@@ -253,14 +253,16 @@ class Ctx:
         return Heap.fresh(f'!{tag}{self.counter}')
 
     # -- assumptions, branching, obligations ---------------------------------------------------
-    def assume(self, fact):
+    def assume(self, fact, _split=True):
+        if _split:
+            # split on the original structure (simplification rewrites implications into disjunctions)
+            parts = split_fact(fact)
+            if len(parts) > 1:
+                for p in parts:
+                    self.assume(p, _split=False)
+                return
         fact = z3.simplify(fact)
         if is_t(fact):
-            return
-        parts = split_fact(fact)
-        if len(parts) > 1:
-            for p in parts:
-                self.assume(p)
             return
         self.pc.append(fact)
         # quantified facts are kept for the obligations but not given to the branch-feasibility solver: it mostly
